@@ -14,7 +14,7 @@ type encExtra struct{}
 
 func (e *enc) effCtx() *effCtx {
 	if e.ec == nil {
-		e.ec = &effCtx{P: e.P, profile: e.profile, memo: map[*ssa.Function]*Effects{}, busy: map[*ssa.Function]bool{}}
+		e.ec = &effCtx{P: e.P, root: e.rootFC, profile: e.profile, memo: map[*ssa.Function]*Effects{}, busy: map[*ssa.Function]bool{}}
 	}
 	return e.ec
 }
